@@ -32,13 +32,14 @@ def writeBit (b : BitBuffer) (bit : Bool) : Outcome BitBuffer := do
   pure { b with buffer := buf, wp := wp }
 
 def writeBitsWithOffsetLen (b : BitBuffer) (src : List Byte) (off len : Nat) : Outcome BitBuffer := do
+  -- fail before growing the buffer
+  failIf (decide (src.length * Consts.BYTE_LEN < off + len)) .endOfStream
   let b := b.ensure len
   let (buf, wp) ← sliceWriteBitsWithOffsetLen b.buffer b.wp src off len
   pure { b with buffer := buf, wp := wp }
 
 def writeBitsWithOffset (b : BitBuffer) (src : List Byte) (off : Nat) : Outcome BitBuffer := do
-  let n ← uSub (src.length * Consts.BYTE_LEN) off
-  let b := b.ensure n
+  let b := b.ensure (src.length * Consts.BYTE_LEN - off)    -- saturating_sub
   let (buf, wp) ← sliceWriteBitsWithOffset b.buffer b.wp src off
   pure { b with buffer := buf, wp := wp }
 
@@ -48,6 +49,7 @@ def writeBits (b : BitBuffer) (src : List Byte) : Outcome BitBuffer := do
   pure { b with buffer := buf, wp := wp }
 
 def writeBitsWithLen (b : BitBuffer) (src : List Byte) (len : Nat) : Outcome BitBuffer := do
+  failIf (decide (src.length * Consts.BYTE_LEN < len)) .endOfStream
   let b := b.ensure len
   let (buf, wp) ← sliceWriteBitsWithLen b.buffer b.wp src len
   pure { b with buffer := buf, wp := wp }
